@@ -76,6 +76,23 @@ def _scalek_build(par, n, a, o, p):
 
 
 OPS['ScaleK'] = (_scalek_build, lambda v, ws, w, p: (v[0] * p['k'] + 1) & 65535)
+
+
+def _mealy_build(par, n, a, o, p):
+    from .behav_blocks import MealyAcc
+    return MealyAcc(par, n, a[0], o)
+
+
+def _bitsel_build(par, n, a, o, p):
+    # a multi-output leaf of which a single output is used: BitsLSBF with dangling outputs
+    wa = a[0].getWidth()
+    bits = [o if k == p['bit'] else par.wire('{}_unused{}'.format(n, k), 1) for k in range(wa)]
+    return py4hw.BitsLSBF(par, n, a[0], bits)
+
+
+# Mealy: out = state + a (raw, reduced by the wire); the state is updated at the edge (see ref_trace)
+OPS['Mealy'] = (_mealy_build, None)
+OPS['BitSel'] = (_bitsel_build, lambda v, ws, w, p: (v[0] >> p['bit']) & 1)
 STATE_OPS = ('Reg', 'Mem')
 
 
@@ -159,6 +176,12 @@ def netlists(draw, max_nodes=20, min_nodes=1, ops=None, n_regs=(0, 0), reg_opts=
         op = draw(st.sampled_from(ops))
         a = pick()
         wa = a[1]
+        if op == 'Mealy':
+            new_node(op, [a[0]], wa)
+            continue
+        if op == 'BitSel':
+            new_node(op, [a[0]], 1, {'bit': draw(st.integers(0, wa - 1))})
+            continue
         if op in ('And2', 'Or2', 'Xor2', 'Nand2'):
             b = pick(wa)
             new_node(op, [a[0], b[0]], wa)
@@ -309,7 +332,7 @@ def comb_order(desc):
     return order
 
 
-def ref_settle(desc, order, invals, regvals, raw_out=None):
+def ref_settle(desc, order, invals, regvals, raw_out=None, mealy=None):
     """values of every signal given the input values and the register outputs; undefined (div by 0) -> None"""
     vals = {}
     for k, v in enumerate(invals):
@@ -325,7 +348,11 @@ def ref_settle(desc, order, invals, regvals, raw_out=None):
             vals['n%d' % k] = None
             continue
         ws = [sig_w(desc, a) for a in nd['args']]
-        raw = OPS[nd['op']][1](av, ws, nd['w'], nd['p'])
+        if nd['op'] == 'Mealy':
+            ms = (mealy or {}).get(k, 0)
+            raw = None if ms is None else ms + av[0]
+        else:
+            raw = OPS[nd['op']][1](av, ws, nd['w'], nd['p'])
         if raw is None:
             vals['n%d' % k] = None
             continue
@@ -371,10 +398,22 @@ def ref_trace(desc, seq, raw_out=None):
     nodes = desc['nodes']
     regs = reg_init(desc)
     memdata = {k: [0] * (1 << nd['p']['aw']) for k, nd in enumerate(nodes) if nd['op'] == 'Mem'}
+    mealy = {k: 0 for k, nd in enumerate(nodes) if nd['op'] == 'Mealy'}
     trace = []
     for t, invals in enumerate(seq):
-        pre = ref_settle(desc, order, invals, regs)
+        pre = ref_settle(desc, order, invals, regs, mealy=mealy)
         new = dict(regs)
+        newm = dict(mealy)
+        for k in mealy:
+            nd = nodes[k]
+            en_sig = node_enable_sig(desc, k)
+            a = pre[nd['args'][0]]
+            if en_sig is not None and pre[en_sig] == 0:
+                continue
+            if a is None or mealy[k] is None or (en_sig is not None and pre[en_sig] is None):
+                newm[k] = None
+            else:
+                newm[k] = (mealy[k] ^ a) & mask(nd['w'])
         for k in regs:
             nd = nodes[k]
             en_sig = node_enable_sig(desc, k)
@@ -413,7 +452,8 @@ def ref_trace(desc, seq, raw_out=None):
             elif en:
                 new[k] = d
         regs = new
-        trace.append(ref_settle(desc, order, invals, regs, raw_out))
+        mealy = newm
+        trace.append(ref_settle(desc, order, invals, regs, raw_out, mealy=mealy))
     return trace
 
 
